@@ -75,6 +75,18 @@ func init() {
 				}
 			}
 		}
+		{
+			s := jobBase("none-att2-delay10-kill-probes")
+			s.MaxAttempts, s.RetryDelay, s.MaxFail = 2, 10, 2
+			s.PodActions = fullPod
+			s.Kill, s.MaxKill = []string{"0", "30"}, 1
+			s.Probes, s.MaxResync = true, 1
+			add(s)
+			s = jobBase("count2-att2-delay10-probes")
+			s.Parallelism, s.MaxAttempts, s.RetryDelay, s.MaxFail = "count2", 2, 10, 1
+			s.Probes, s.MaxResync = true, 1
+			add(s)
+		}
 		if thorough {
 			s := jobBase("count3-AllSuccessful-att2-delay0")
 			s.Parallelism, s.Strategy, s.MaxAttempts, s.MaxFail = "count3", "AllSuccessful", 2, 2
@@ -243,8 +255,10 @@ func init() {
 			s.RetryDelay = 10
 			s.PodActions = fullPod
 			s.Kill, s.MaxKill = []string{"0", "30"}, 1
+			s.Probes, s.MaxResync = true, 1
 			if shape == "count2" {
 				s.MaxAttempts, s.RetryDelay = 1, 0
+				s.Probes, s.MaxResync = false, 0
 			}
 			add(s)
 		}
@@ -261,6 +275,7 @@ func init() {
 				s.Kill, s.MaxKill = []string{"0"}, 1
 				s.KubeletDead, s.ForceDeleteCfg, s.ForbidForce = true, i64(fd), forbid
 				s.Horizon = 2000
+				s.Probes, s.MaxResync = true, 1
 				add(s)
 			}
 		}
@@ -272,6 +287,7 @@ func init() {
 			s.PendingTimeoutJob, s.PendingTimeoutCfg = c.job, c.cfg
 			s.PodActions = []string{"run", "succeed", "fail", "sched"}
 			s.Horizon = 1200
+			s.Probes, s.MaxResync = true, 1
 			add(s)
 		}
 		s = jobBase("count2-pending-30")
@@ -333,6 +349,7 @@ func init() {
 			s.TTLJob, s.TTLCfg = c.job, c.cfg
 			s.MaxAttempts, s.MaxFail = 2, 2
 			s.Horizon = 4000
+			s.Probes, s.MaxResync = true, 1
 			s.PodActions = fullPod
 			add(s)
 		}
